@@ -252,7 +252,12 @@ def insert(
     insert = Insert(this=this, expression=expr, overwrite=overwrite)
 
     if returning:
-        insert = insert.returning(returning, dialect=dialect, copy=False, **opts)
+        insert = insert.returning(
+            maybe_copy(returning, copy) if isinstance(returning, Expr) else returning,
+            dialect=dialect,
+            copy=False,
+            **opts,
+        )
 
     return insert
 
@@ -303,7 +308,12 @@ def merge(
         whens=Whens(expressions=expressions),
     )
     if returning:
-        merge = merge.returning(returning, dialect=dialect, copy=False, **opts)
+        merge = merge.returning(
+            maybe_copy(returning, copy) if isinstance(returning, Expr) else returning,
+            dialect=dialect,
+            copy=False,
+            **opts,
+        )
 
     if isinstance(using_clause := merge.args.get("using"), Alias):
         using_clause.replace(alias_(using_clause.this, using_clause.args["alias"], table=True))
